@@ -57,7 +57,7 @@ class Pool:
         n = self.r.randrange(0, w + 1)
         if n == 0:
             return ""
-        alpha = "ABCDEFGHIJKLMNOPQRSTUVWXYZ0123456789"
+        alpha = "ABCDEFGHIJKLMNOPQRSTUVWXYZ"  # no digits: a text field must never parse as a frame count
         s = "".join(self.r.choice(alpha + " ") for _ in range(n - 1)) + self.r.choice(alpha)  # no trailing blank
         return s
 
@@ -395,7 +395,7 @@ def run_record_case(case, seed):
             o["head"] = o["tail"] = "unparseable: %s" % ex
         obs["recs"].append(o)
     obs["streamlen"] = len(buf)
-    obs["expected_streamlen"] = off
+    obs["width_class"] = ascii_width_class(buf) if enc == "asc" else None
     # read back with the real reader: the writer's own call sequence, one scalar fewer, one int more
     for variant in ("same", "short", "long"):
         want = case[variant]
@@ -430,3 +430,62 @@ def run_record_case(case, seed):
                         problems.append(("record:%s:readback:%s:%s" % (enc, f["k"], f["vc"]),
                                          "%s field (%s) written %r read back %r" % (f["k"], f["vc"], wv[:4], list(gv)[:4])))
     return obs, problems
+
+
+# ------------------------------------------------------------------------------------------------------------
+# record layer, code -> spec: random long histories on the real writers, logged event by event
+# ------------------------------------------------------------------------------------------------------------
+def random_field(r, enc):
+    kinds = ["int", "bool", "float", "double", "string"] + (["long"] if enc == "bin" else [])
+    c = r.choice("ssslm")
+    if c == "s":
+        k = r.choice(kinds)
+        return {"k": k, "c": "s", "n": 1, "w": r.randrange(0, 31) if k == "string" else 0, "sh": []}
+    if c == "l":
+        k = r.choice(["int", "float", "double", "string"])
+        n = r.randrange(0, 7)
+        return {"k": k, "c": "l", "n": n, "w": r.randrange(1, 13) if k == "string" else 0, "sh": [n]}
+    k = r.choice(["int", "float", "double"])
+    sh = [r.randrange(0, 4) for _ in range(r.randrange(1, 4))]
+    n = 1
+    for x in sh:
+        n *= x
+    return {"k": k, "c": "m", "n": n, "w": 0, "sh": sh}
+
+
+_RW_NAME = {"int": "RwInt", "bool": "RwBool", "long": "RwLong", "float": "RwFloat", "double": "RwDouble", "string": "RwString"}
+
+
+def record_traces(ntraces, maxrecs, maxfields, seed):
+    cccc = cccc_mod()
+    r = random.Random(seed * 104729 + 7)
+    traces = []
+    for t in range(ntraces):
+        enc = "bin" if t % 2 == 0 else "asc"
+        W = cccc.BinaryRecordWriter if enc == "bin" else cccc.AsciiRecordWriter
+        stream = io.BytesIO() if enc == "bin" else io.StringIO()
+        pool = Pool(r.randrange(1 << 30))
+        ev = []
+        for _ in range(r.randrange(1, maxrecs + 1)):
+            start = len(stream.getvalue())
+            rec = W(stream)
+            rec.open()
+            ev.append({"a": {"n0": "Open"}, "post": {"numBytes": rec.numBytes, "payload": sum(len(x) for x in rec.data)}})
+            for _ in range(r.randrange(0, maxfields + 1)):
+                f = random_field(r, enc)
+                f["vc"] = "typ"
+                vals = _field_values(f, pool)
+                _write_field(rec, f, vals)
+                a = {"n0": _RW_NAME[f["k"]] if f["c"] == "s" else ("RwList" if f["c"] == "l" else "RwMatrix"),
+                     "k": f["k"], "c": f["c"], "n": f["n"], "w": f["w"], "sh": f["sh"]}
+                ev.append({"a": a, "post": {"numBytes": rec.numBytes, "payload": sum(len(x) for x in rec.data)}})
+            rec.close()
+            piece = stream.getvalue()[start:]
+            if enc == "bin":
+                post = {"head": struct.unpack_from(INT_FMT, piece, 0)[0], "len": len(piece) - 8,
+                        "tail": struct.unpack_from(INT_FMT, piece, len(piece) - 4)[0]}
+            else:
+                post = {"head": int(piece[:ASC_INT]), "len": len(piece) - 2 * ASC_INT - 1, "tail": int(piece[-ASC_INT - 1: -1])}
+            ev.append({"a": {"n0": "Close"}, "post": post})
+        traces.append({"id": "r%d" % t, "enc": enc, "ev": ev})
+    return traces
